@@ -19,6 +19,7 @@ import (
 	_ "verif.local/sim/props/c13"
 	_ "verif.local/sim/props/c14"
 	_ "verif.local/sim/props/c15"
+	_ "verif.local/sim/props/c16"
 	_ "verif.local/sim/props/c17"
 )
 
